@@ -249,13 +249,31 @@ impl util::BitVec
 			*accum_index = read_index;
 		};
 
+		// A record can only start at a whole address, so each block
+		// is widened down to an address boundary (and up to a whole byte);
+		// blocks that come to touch each other are merged
+		let mut ranges = Vec::<(usize, usize)>::new();
+
 		for block in self.get_blocks()
 		{
-			let mut read_index = block.offset;
-			let mut accum_index = block.offset;
+			let start = block.offset - block.offset % address_unit;
+			let end = (block.offset + block.size + 7) / 8 * 8;
+
+			match ranges.last_mut()
+			{
+				Some(last) if start <= last.1 =>
+					last.1 = std::cmp::max(last.1, end),
+				_ => ranges.push((start, end)),
+			}
+		}
+
+		for (range_start, range_end) in ranges
+		{
+			let mut read_index = range_start;
+			let mut accum_index = range_start;
 			let mut accum_bytes = Vec::<u8>::new();
 	
-			while read_index < block.offset + block.size
+			while read_index < range_end
 			{
 				let mut byte: u8 = 0;
 				for _ in 0..8
